@@ -152,6 +152,7 @@ def worker(ctx, job):
     for op in job["ops"]:
         keys = job["keys"] if op in KEYED else [None]
         for key in keys:
+            dest = os.path.join(outside, "dest") if job.get("dest_exists") != "missing-parent" else os.path.join(outside, "no-such-dir", "sub", "dest")
             prog = programs(op, side, cache_arg, key if key is not None else "unused", dest, target)
             if prog is None:
                 continue
@@ -194,7 +195,9 @@ def worker(ctx, job):
                 # the destination already exists: as an earlier extraction of the same entry (a hard link to the same
                 # content) or as an unrelated file
                 cpath_ = os.path.join(real_cache, ref.content_rel(sri(OLD)))
-                if job["dest_exists"] == "directory":
+                if job["dest_exists"] == "missing-parent":
+                    pass    # (the destination path is redirected below: nothing may be created on the way to it)
+                elif job["dest_exists"] == "directory":
                     os.makedirs(dest)      # the destination names an existing directory: nothing may appear in it, beside it or elsewhere
                 elif job["dest_exists"] == "same-content-link" and os.path.isfile(cpath_):
                     os.link(cpath_, dest)
@@ -370,6 +373,8 @@ def main(tier, seed=0):
             jobs.append({"flavour": flavour, "side": side, "temp": "warm", "rootform": "abs", "ops": sorted(EXTRACT), "keys": keys[:2], "dest_exists": de})
         pathy = [k for k in tables.KEYS_HOSTILE if ("/" in k or ".." in k) and len(k) < 200][:6]
         jobs.append({"flavour": flavour, "side": side, "temp": "warm", "rootform": "abs", "ops": sorted(EXTRACT), "keys": pathy, "dest_exists": "directory"})
+        jobs.append({"flavour": flavour, "side": side, "temp": "warm", "rootform": "abs", "ops": sorted(EXTRACT), "keys": keys[:2], "dest_exists": "missing-parent"})
+        jobs.append({"flavour": flavour, "side": side, "temp": "index-only", "rootform": "abs", "ops": sorted(EXTRACT), "keys": keys[:2], "dest_exists": "missing-parent"})
         jobs.append({"flavour": flavour, "side": side, "temp": "tmp-blocked", "rootform": "abs", "ops": ["write", "write_with_algo", "writer", "writer_dropped", "writer_create", "link_to"], "keys": keys[:3]})
         jobs.append({"flavour": flavour, "side": side, "temp": "tmp-blocked", "rootform": "abs", "ops": ["write_hash", "link_to_hash", "list", "read_hash"], "keys": []})
         for dmg in ("damaged-content", "truncated-content"):
